@@ -39,10 +39,14 @@ mod util;
 
 mod mon_board;
 mod mon_draws;
+mod mon_fen;
 mod mon_picker;
 mod mon_pos;
+mod mon_search;
 mod mon_selftest;
 mod mon_tables;
+mod mon_time;
+mod mon_tt;
 mod mon_walk;
 
 use util::{Args, Report};
@@ -113,6 +117,32 @@ fn main() {
             init();
             mon_pos::run(mon_pos::PProp::C20, &args, seed, &tier, &report)
         }
+        "c06" => {
+            init();
+            mon_fen::run(&args, seed, &tier, &report)
+        }
+        // the table needs none of the engine's static tables: no init() (keeps Miri runs short)
+        "c19" => mon_tt::run(&args, seed, &tier, &report),
+        "c04" => {
+            init();
+            mon_search::run_c04_c08(mon_search::SProp::C04, &args, seed, &tier, &report)
+        }
+        "c08" => {
+            init();
+            mon_search::run_c04_c08(mon_search::SProp::C08, &args, seed, &tier, &report)
+        }
+        "c09" => {
+            init();
+            mon_search::run_c09(&args, seed, &tier, &report)
+        }
+        "c12" => {
+            init();
+            mon_search::run_c12(&args, seed, &tier, &report)
+        }
+        "c14" => {
+            init();
+            mon_time::run(&args, seed, &tier, &report)
+        }
         _ => {
             eprintln!("unknown mode {mode}");
             std::process::exit(2);
@@ -134,5 +164,9 @@ fn main() {
         wall
     );
     // exit status: 0 = ran to completion (violations are in the report), 3 = internal error
+    if util::HARNESS_PANICS.load(std::sync::atomic::Ordering::SeqCst) > 0 {
+        eprintln!("vharness: harness code panicked; the report is not trustworthy");
+        std::process::exit(3);
+    }
     std::process::exit(0);
 }
